@@ -13,7 +13,9 @@ RULE = (
     'Histories of 1..12 edits on one sheet (initial text from a pool of valid sheets): insertRule(text | object, index) '
     'for all ten rule kinds and all indexes 0..len+1, ordered add, deleteRule(index | object), sheet.cssText = (valid, '
     'invalid, mis-ordered texts), rule.cssText =, sheet.encoding =, namespaces[p] = uri, del namespaces[p], and the same '
-    'insert / add / delete on the rule lists of @media and @page rules; error mode raise/log chosen per history. '
+    'insert / add / delete on the rule lists of @media and @page rules; insertRule(rule list) / cssRules.extend(rule list) with lists '
+    'of allowed and disallowed kinds parsed from another sheet; setProperty(Property object taken from another declaration block); '
+    '@page texts that repeat a margin box (merged); error mode raise/log chosen per history. '
     'Invariant after every step, accepted or rejected: at most one @charset and only first; every @import before every '
     '@namespace before every style/media/page/font-face rule; @media lists hold no charset/import/namespace/font-face/'
     'margin rule, @page lists only margin rules; every reachable rule / declaration block / property names its actual '
@@ -40,9 +42,16 @@ INIT = ['', 'a { top: 0 }', '@charset "ascii"; @import "i.css"; @namespace p "ht
         '@namespace "http://d.example"; @font-face { font-family: "F"; src: url(f) } d { top: 0 } @foo;']
 SHEET_TEXTS = ['a { top: 0 } b { left: 0 }', '@import "late.css"; c {}', 'x { top: 0 } @import "late.css";', 'a {',
                '@namespace z "http://z.example"; z|a { top: 0 }', 'a,,b { top: 0 }', '@charset "utf-8"; a { top: 0 } @charset "ascii";',
-               '@media print { @import "x"; a { top: 0 } }', 'zz|a { top: 0 }', '']
+               '@media print { @import "x"; a { top: 0 } }', 'zz|a { top: 0 }', '',
+               'a { top: 0 } @page { @top-left { content: "a" } @top-left { font-size: 9pt; content: "b" } }']
 RULE_TEXTS = ['r { top: 1px }', '@media tv { r { left: 0 } }', 'r {', '@import "x";', '/* r */', 'r,,s { top: 0 }', '@page { margin: 2cm }',
-              '@namespace r "http://r.example";', '@charset "latin-1";']
+              '@namespace r "http://r.example";', '@charset "latin-1";',
+              '@page { @top-left { content: "a" } @top-left { font-size: 9pt } margin: 1cm }',
+              '@media print { @page { @bottom-right { content: "a" } @bottom-right { color: red; content: "b" } } }']
+LIST_TEXTS = ['x { top: 0 } /* c */ y { left: 0 }', '@namespace l "http://l.example"; l|a { top: 0 }',
+              '@font-face { font-family: "L"; src: url(l) } m { top: 0 }', '@import "l.css"; n { top: 0 }',
+              '@page { margin: 0 } @media print { o { top: 0 } }', '@charset "ascii"; p { top: 0 }', '/* only */', '@foo l; q { top: 0 }',
+              '@page { @top-left { content: "l" } }']
 
 
 def make_object(kind):
@@ -90,6 +99,8 @@ op = st.one_of(
     st.tuples(st.just('nInsert'), st.integers(0, 4), kind_s, st.booleans(), st.integers(0, 4)),
     st.tuples(st.just('nAdd'), st.integers(0, 4), kind_s, st.booleans()),
     st.tuples(st.just('nDelete'), st.integers(0, 4), st.integers(0, 4)),
+    st.tuples(st.just('insertList'), st.integers(-1, 4), st.integers(0, len(LIST_TEXTS) - 1), st.integers(0, 4), st.booleans()),
+    st.tuples(st.just('setPropObj'), st.integers(0, 6), st.booleans()),
 )
 strategy = st.fixed_dictionaries({
     'init': st.integers(0, len(INIT) - 1), 'raising': st.booleans(), 'ops': st.lists(op, min_size=1, max_size=12),
@@ -226,6 +237,29 @@ def check(case, ctx):
                     sheet.namespaces[o[1]] = o[2]
                 elif kind == 'nsDel':
                     del sheet.namespaces[o[1]]
+                elif kind == 'insertList':
+                    saved_mode = cssutils.log.raiseExceptions
+                    cssutils.log.raiseExceptions = False
+                    try:
+                        other = cssutils.CSSParser(fetcher=lambda u: (None, '')).parseString(LIST_TEXTS[o[2]])
+                    finally:
+                        cssutils.log.raiseExceptions = saved_mode
+                    rules = other.cssRules
+                    if o[2] == len(LIST_TEXTS) - 1 and rules.length:
+                        rules = rules[0].cssRules  # a list of margin rules
+                    cs = containers(sheet)
+                    target = sheet if o[1] < 0 or not cs else cs[o[1] % len(cs)]
+                    if o[4] and hasattr(target.cssRules, 'extend') and target is not sheet:
+                        target.cssRules.extend(rules)
+                    else:
+                        target.insertRule(rules, min(o[3], target.cssRules.length))
+                elif kind == 'setPropObj':
+                    styled = [r for r in walk(sheet.cssRules) if hasattr(r, 'style')]
+                    if not styled:
+                        continue
+                    target = styled[o[1] % len(styled)]
+                    donor = css.CSSStyleDeclaration(cssText='left: 1px; x-moved: 1')
+                    target.style.setProperty(donor.getProperties(all=True)[0], replace=o[2])
                 else:
                     cs = containers(sheet)
                     if not cs:
@@ -250,7 +284,7 @@ def check(case, ctx):
             check_invariants(sheet, removed, step)
             if not rejected:
                 effective += 1
-                if kind in ('insert', 'add', 'nInsert', 'nAdd') and (after_removal or last_rejected) and effective >= 3:
+                if kind in ('insert', 'add', 'nInsert', 'nAdd', 'insertList') and (after_removal or last_rejected) and effective >= 3:
                     nontrivial = True
                 if gone:
                     after_removal = True
